@@ -52,6 +52,11 @@ ALL_MODES = ['NQ'] + list(MODES)
 BLK8 = cfg(wbits=8, wgran='BLOCKWISE', cp='FLOAT', edq=True, skip=True)
 BLK8['weight_tensor_config']['block_size'] = 2
 MODES['BLK8'] = (MMU, BLK8)
+# dynamic-range configs with asymmetric weights: refused by the unchanged
+# library for every operator (the hybrid kernels have no weight zero point);
+# in C06's alphabet so that a library that starts accepting them is measured
+MODES['DRQ8a'] = (MMU, cfg(wsym=False))
+MODES['DRQ4a'] = (MMU, cfg(wbits=4, wsym=False))
 MODE12 = ['NQ', 'SRQ8a', 'SRQ8s', 'SRQ16', 'SRQ8w4', 'DRQ8c', 'DRQ8t', 'DRQ4c',
           'WO8c', 'WO8a', 'WO4c', 'FP16']
 
